@@ -11,7 +11,7 @@ API are mutually inverse; element nodes of the graph = elements holding a value;
 is acyclic; precedents() contains every reference the formula read by attribute path.
 """
 from .. import exec_props as X
-from ..execworld import ExecImpl, node_s, parse_val
+from ..execworld import ExecImpl, node_s, parse_val, COPY_BASE
 from ..expr import parse_sexp
 from ..impl import mx, quiet
 from ..shadow import CallRecorder
@@ -21,7 +21,7 @@ CFG = {
                 "setcached": 0.9, "setformula": 0.5, "setref": 0.5, "delref": 0.15},
     "compare": ["graph", "refgraph", "values"],
     "maxdepths": [None, None, 6, 10],
-    "raise_p": 0.07, "none_p": 0.04, "catch_all_p": 0.15,
+    "raise_p": 0.07, "none_p": 0.04, "catch_all_p": 0.15, "space_p": 0.3,
     "rule": "random programs (cached and uncached cells, recursion, references by attribute path, failing and "
             "handled callees) with histories of evaluations, re-evaluations (cache hits), value edits, failed "
             "evaluations, cache-flag flips (both directions), formula edits and reference edits (change, create, "
@@ -38,6 +38,8 @@ def oracle(case, recs, out, stats):
     cached = {c["id"]: c["cached"] for c in case["cells"]}
     bodies = {c["id"]: c["body"] for c in case["cells"]}
     nontrivial = False
+    copied = False
+    shadowed = set()        # (space, reference id): a space-level reference of the name of a model-level one exists
     try:
         g = impl.m._impl.tracegraph
         for k, op in enumerate(case["ops"]):
@@ -46,11 +48,27 @@ def oracle(case, recs, out, stats):
             r = impl.apply(op)
             if op[0] == "eval":
                 rec.top_done(r.startswith("ok"))
+                if r.split()[:2] in (["err", "Assertion"], ["err", "Index"]):
+                    # neither a value nor a FormulaError: one of the library's own consistency assertions about its
+                    # stacks and graphs tripped
+                    out.fail("%s ended in %s out of the library's own bookkeeping" % (" ".join(op), r.split()[1]), hist)
             elif op[0] == "setcached" and r == "ok":
                 cached[int(op[1])] = op[2] == "1"
                 stats["oracle_flag_flips"] += 1
             elif op[0] == "setformula" and r == "ok":
                 bodies[int(op[1])] = parse_sexp(" ".join(op[2:]))
+            elif op[0] == "shadow" and r == "ok":
+                shadowed.add((int(op[2]), int(op[1])))
+            elif op[0] == "unshadow" and r == "ok":
+                shadowed.discard((int(op[2]), int(op[1])))
+            elif op[0] == "copycell" and r == "ok":
+                cached[int(op[3])] = cached[int(op[1])]
+                bodies[int(op[3])] = bodies[int(op[1])]
+            elif op[0] == "copyspace" and r == "ok":
+                for cid in list(impl.cells):
+                    if cid >= COPY_BASE:
+                        cached[cid] = cached[cid - COPY_BASE]
+                        bodies[cid] = bodies[cid - COPY_BASE]
             # the only nodes without a key are the object nodes of cells that are uncached NOW
             for n in g.nodes:
                 if len(n) == 1:
@@ -70,6 +88,19 @@ def oracle(case, recs, out, stats):
             if not _acyclic(g):
                 out.fail("dependency graph has a cycle", hist, key="C08-cycle-after-caught-deep"
                          if (case["maxdepth"] and X.has_catch_all(case)) else None)
+            if op[0] in ("copycell", "copyspace") and r == "ok":
+                # the formulas of a copy log their executions under the id of the cells they were rendered for: from
+                # here on the record of calls cannot tell copy and original apart; the clauses above (nodes = held,
+                # object nodes, acyclic) are checked to the end of the history
+                copied = True
+            if copied:
+                for cid, c in impl.cells.items():
+                    for key in c._impl.data:
+                        if key in c._impl.input_keys and (c._impl, key) in g and list(g.predecessors((c._impl, key))):
+                            out.fail("input element %s has predecessors" % node_s(cid, key), hist)
+                        if key in c._impl.input_keys and cached.get(cid, True):
+                            _input_answers(c, cid, key, out, stats, hist)
+                continue
             # preds exact for computed elements
             for cid, c in impl.cells.items():
                 if not cached[cid]:
@@ -80,6 +111,7 @@ def oracle(case, recs, out, stats):
                     if key in c._impl.input_keys:
                         if (c._impl, key) in g and list(g.predecessors((c._impl, key))):
                             out.fail("input element %s has predecessors" % node_s(cid, key), hist)
+                        _input_answers(c, cid, key, out, stats, hist)
                         continue
                     want = rec.expected_preds((cid, key), lambda x: cached[x])
                     if want is None or (c._impl, key) not in g:
@@ -100,21 +132,75 @@ def oracle(case, recs, out, stats):
                                 back = [(s.obj._impl, s.args) for s in p.obj.succs(*p.args)]
                                 if (c._impl, key) not in back:
                                     out.fail("succs() of a pred of %s does not list it" % node_s(cid, key), hist)
-                        # attribute-path reads are in precedents()
-                        want_refs = {e[1] for e in _reads(bodies[cid]) if e[0] == "ra"}
-                        if want_refs:
-                            names = set()
-                            for p in c.precedents(*key):
-                                nm = getattr(p.obj, "name", None) if hasattr(p, "obj") else None
-                                names.add(nm)
-                            ran = {"r%d" % r for r in _reads_executed(bodies[cid], want_refs)}
-                            if not ran <= names:
-                                out.fail("precedents() of %s lacks references read by attribute path: %s" % (
-                                    node_s(cid, key), sorted(ran - names)), hist)
+                        # precedents(): every reference the element's own formula read, by name or by attribute path
+                        # (the harness' own record of the reads: shadow.CallRecorder.zr)
+                        _check_precedents(impl, rec, case, cid, c, key, shadowed, out, stats, hist)
     finally:
         impl.close()
     return nontrivial or any(">" in r["obs"]["graph"][0] and r["obs"]["log"][0] == "log " and
                              r["impl"].startswith("ok") for r in recs)
+
+
+KNOWN_MODEL_ATTR = "C08-model-attribute-read-untracked"
+KNOWN_NEVER_RUN = "C08-precedents-before-first-evaluation"
+
+
+def _input_answers(c, cid, key, out, stats, hist):
+    """an element holding an assigned value can be asked for its dependencies like any other (it has none)"""
+    stats["oracle_input_queries"] += 1
+    with quiet():
+        for what in ("preds", "succs", "precedents"):
+            try:
+                got = getattr(c, what)(*key)
+            except BaseException as e:      # noqa: BLE001
+                known = what == "precedents" and isinstance(e, AttributeError) and "_is_names_updated" in str(e)
+                out.fail("%s() of the input element %s raised %s" % (what, node_s(cid, key), type(e).__name__), hist,
+                         key=KNOWN_NEVER_RUN if known else None)
+                return
+            if what == "preds" and got:
+                out.fail("preds() of the input element %s reports %d nodes" % (node_s(cid, key), len(got)), hist)
+
+
+def _check_precedents(impl, rec, case, cid, c, key, shadowed, out, stats, hist):
+    reads = rec.own_reads((cid, key))
+    if not reads:
+        return
+    here = impl.cell_space.get(cid, 0)
+    if here not in (0, 1):
+        return      # a cells of the copied space: which reference a name denotes there is not tracked by this oracle
+    glob = impl.glob
+
+    def owner(kind, r, form):
+        if kind == "rn" and r not in glob:
+            return impl.ref_space(r)
+        if kind == "ra" and r not in glob:
+            return impl.ref_space(r)
+        if kind in ("rn", "ra"):
+            form = 0 if kind == "rn" else 1
+        if form == 3:
+            return 2
+        k = here if form in (0, 1) else (1 - here) if form == 2 else 1
+        return k if (k, r) in shadowed else 2
+    want = {}
+    for kind, r, form in reads:
+        want.setdefault(("r%d" % r, owner(kind, r, form)), []).append((kind, form))
+    parents = {id(impl.S._impl): 0, id(impl.Ch._impl): 1, id(impl.m._impl): 2}
+    got = set()
+    for p in c.precedents(*key):
+        ri = getattr(p, "_impl", None)
+        if type(p).__name__ == "ReferenceNode" and ri is not None:
+            got.add((ri[0].name, parents.get(id(ri[0].parent), "?")))
+    stats["oracle_precedent_refs_checked"] += len(want)
+    missing = sorted(w for w in want if w not in got)
+    if missing:
+        where = {0: "S", 1: "S.Ch", 2: "the model"}
+        how = {"rn": "by name", "ra": "by attribute path", "rg": "model-level"}
+        FORMS = {0: "by name", 1: "as _space.r", 2: "through the other space", 3: "as _model.r", 4: "as _space.Ch.r / _space.parent.Ch.r"}
+        txt = ["%s of %s (read %s)" % (n, where[k], ", ".join(sorted({FORMS[f] if kd == "rg" else how[kd] for kd, f in want[(n, k)]})))
+               for n, k in missing]
+        only_model_attr = all(kd == "rg" and f == 3 for w in missing for kd, f in want[w])
+        out.fail("precedents() of %s lacks references its formula read: %s" % (node_s(cid, key), "; ".join(txt)), hist,
+                 key=KNOWN_MODEL_ATTR if only_model_attr else None)
 
 
 def _reads(e):
@@ -220,11 +306,212 @@ def scenarios():
     return out
 
 
+def handled_read_cases():
+    """Scenario family "a handled failure leaves no trace": c0 reads a reference by attribute path and FAILS; the catcher c2
+    handles the failure (a default) and then calls an element not computed yet (c1, which reads nothing) / calls nothing /
+    reads a reference of its own / calls c1 BEFORE and after; c3 calls the catcher.  The reads of the failed execution
+    belong to nobody: not to the sibling computed next, not to the catcher.  c0, c1 cached or uncached; then the
+    reference c0 read is changed and everything is asked again (nothing but the catcher's chain may be discarded)."""
+    P0, L = ("p", 0), (lambda i: ("lit", i))
+    t = ("try", ("call", 0, [P0]), "k0", L(-1))
+    after = {
+        "sibling": ("add", t, ("call", 1, [P0])),
+        "nothing": ("add", t, L(5)),
+        "own-read": ("add", t, ("ra", 0)),
+        "sibling-before-and-after": ("add", ("add", ("call", 1, [("add", P0, L(1))]), t), ("call", 1, [P0])),
+        "read-then-sibling": ("add", ("add", ("ra", 3), t), ("call", 1, [P0])),
+    }
+    cases = []
+    for name, body in after.items():
+        for c0c in (True, False):
+            for c1c in (True, False):
+                cells = [
+                    {"id": 0, "nparams": 1, "cached": c0c, "body": ("add", ("add", ("ra", 2), ("ra", 3)), ("raise", 0))},
+                    {"id": 1, "nparams": 1, "cached": c1c, "body": ("mul", P0, L(2))},
+                    {"id": 2, "nparams": 1, "cached": True, "body": body},
+                    {"id": 3, "nparams": 1, "cached": True, "body": ("add", ("call", 2, [P0]), ("call", 1, [P0]))},
+                ]
+                for c in cells:
+                    c["allow_none"] = False
+                ev = [["eval", "2", "1"], ["eval", "3", "1"], ["eval", "1", "1"], ["eval", "3", "2"]]
+                ops = ev + [["setref", "2", "9"]] + ev + [["setref", "3", "8"]] + ev + [["eval", "0", "1"]] + ev[:2]
+                cases.append({"cells": cells, "refs": {0: 1, 1: 2, 2: 3, 3: 4}, "n_rn": 2, "maxdepth": None, "ops": ops,
+                              "label": "handled-read/%s/c0 %s c1 %s" % (name, "cached" if c0c else "uncached",
+                                                                         "cached" if c1c else "uncached")})
+    return cases
+
+
+def visible_name_cases():
+    """Scenario family "every way a name can be visible in a space": a MODEL-LEVEL reference (resolved by every space,
+    owned by none) read by name and through every attribute path that resolves it (`_space.r`, through the other space,
+    through a longer path, `_model.r`), from either space, directly by a cached cells (with a dependent) and by an
+    uncached one below a cached caller; evaluated, asked again (cache hit), the reference changed, a reference of the
+    same name defined in the space the read went through (it shadows the model-level one), deleted again, the model-level
+    one deleted and re-created.  precedents() must list the reference the formula read at every step."""
+    cases = []
+    for here in (0, 1):
+        for form in (0, 1, 2, 4, 3):
+            k = here if form in (0, 1) else (1 - here) if form == 2 else 1      # the space the name is resolved in
+            cells = [
+                {"id": 0, "nparams": 0, "cached": True, "allow_none": False, "space": here, "glob": [4, 5],
+                 "body": ("add", ("rg", 4, form), ("lit", 10))},
+                {"id": 1, "nparams": 0, "cached": False, "allow_none": False, "space": here,
+                 "body": ("add", ("rg", 5, form), ("ra", 0 if here == 0 else 2))},
+                {"id": 2, "nparams": 0, "cached": True, "allow_none": False, "space": 1 - here,
+                 "body": ("add", ("call", 0, []), ("call", 1, []))},
+                {"id": 3, "nparams": 0, "cached": True, "allow_none": False, "space": here,
+                 "body": ("add", ("rg", 5, form), ("rg", 4, 0))},
+            ]
+            ev = [["eval", "0"], ["eval", "2"], ["eval", "3"]]
+            ops = (ev + ev[:1] + [["setref", "4", "9"]] + ev + [["shadow", "4", str(k), "7"]] + ev
+                   + [["shadow", "5", str(k), "8"]] + ev + [["unshadow", "4", str(k)]] + ev + [["delref", "4"]] + ev
+                   + [["setref", "4", "3"]] + ev)
+            cases.append({"cells": cells, "refs": {0: 1, 1: 2, 2: 3, 3: 4, 4: 5, 5: 6}, "n_rn": 2, "maxdepth": None,
+                          "ops": ops, "label": "visible-names/reader in space %d form %d" % (here, form)})
+    return cases
+
+
+# random programs in the implementation-only vocabulary: model-level references read by name and by path, references
+# of the same name defined in / deleted from the spaces, copies of cells and of the child space
+CFG_GLOB = dict(CFG, space_p=0.5, glob_p=0.45,
+                weights=dict(CFG["weights"], setref=0.9, delref=0.2, shadow=0.9, unshadow=0.4, copycell=0.35,
+                             copyspace=0.15))
+
+
 def run(ctx, out):
-    X.run_family(ctx, out, CFG, oracle, 150, 2500, structured=scenarios() + scenario_cases())
+    from .. import dagenum
+    extra = [X.gen_case(ctx.rng("glob", i), CFG_GLOB) for i in range(ctx.n(40, 600))]
+    for i, c in enumerate(extra):
+        c["label"] = "impl-only-vocabulary/%d" % i
+    from . import c09
+    # chains with two and three uncached cells in a row below a cached top, the leaf reading by attribute path
+    chains = [c09.chain_case(n, form, ls, fl, flip) for n, form, ls, fl, flip in (
+        (3, "ra-other", 0, (False, False, True), False), (3, "ra-own", 1, (False, False, True), True),
+        (4, "ra-other", 0, (False, False, False, True), False), (4, "ra-other", 1, (True, False, False, True), True),
+        (4, "rg2", 0, (False, False, True, True), False), (3, "rg1", 1, (False, False, True), False))]
+    stats = X.run_family(ctx, out, CFG, oracle, 150, 2500,
+                         structured=scenarios() + scenario_cases() + handled_read_cases() + visible_name_cases() + X.copy_cases()
+                         + chains + extra
+                         + dagenum.sample_cases(ctx, 4, ctx.n(12, 200)))
+    item_space_names(out, stats)
+    dag_enumeration(ctx, out, stats)
+    for k in ("dag_shapes", "dag_orders", "dag_scenarios", "item_space_name_scenarios"):
+        out.coverage["input_distribution"][k] = stats[k]
     out.assumptions.append("get_valuerefs (by-name references from bytecode) is exercised through precedents() only "
                            "for attribute-path reads; by-name value references are not compared")
 
 
+def item_space_names(out, stats):
+    """Names a space resolves without owning them, outside the two-space exec world: a parametrised space `P` with the
+    items `P[t]` (the argument `t`, a reference of `P`, a model-level reference and a reference returned by `P`'s formula
+    read through the item; a reference of a child space of the item), a space `D` with the base `B` (a derived reference
+    read through `D`), plain own / nested references as controls.  Which references each formula reads is known by
+    construction, every reference has its own value: precedents() must report a reference node of that name and value
+    for each of them - at the first evaluation, on cache hits and after every edit of the history - and the value
+    returned must be what plain evaluation of the formula gives."""
+    from ..impl import close_all
+    hist = {"scenario": "item-space-names"}
+    close_all()
+    with quiet():
+        m = mx.new_model("V")
+        m.g = 5
+        A = m.new_space("A")
+        A.own = 11
+        A.new_space("Sub").deep = 13
+        B = m.new_space("B")
+        B.bref = 17
+        D = m.new_space("D", bases=B)
+        P = m.new_space("P", formula="lambda t: {'refs': {'made': t * 100}}")
+        P.pref = 19
+        P.new_space("PC").pcref = 23
+        R = m.new_space("R")
+        R.A, R.D, R.P = A, D, P
+        vals = {"g": 5, "own": 11, "deep": 13, "bref": 17, "pref": 19, "pcref": 23}
+        readers = {        # name -> (formula, references read by path: name -> value(t, vals), plain value(t, vals))
+            "own": ("lambda t: A.own + t", lambda t, v: {"own": v["own"]}, lambda t, v: v["own"] + t),
+            "deep": ("lambda t: A.Sub.deep + t", lambda t, v: {"deep": v["deep"]}, lambda t, v: v["deep"] + t),
+            "glob": ("lambda t: A.g + t", lambda t, v: {"g": v.get("Ag", v["g"])}, lambda t, v: v.get("Ag", v["g"]) + t),
+            "derived": ("lambda t: D.bref + t", lambda t, v: {"bref": v["bref"]}, lambda t, v: v["bref"] + t),
+            "arg": ("lambda t: P[t].t * 2", lambda t, v: {"t": t}, lambda t, v: t * 2),
+            "ofbase": ("lambda t: P[t].pref + t", lambda t, v: {"pref": v["pref"]}, lambda t, v: v["pref"] + t),
+            "made": ("lambda t: P[t].made + 1", lambda t, v: {"made": t * 100}, lambda t, v: t * 100 + 1),
+            "itemglob": ("lambda t: P[t].g + t", lambda t, v: {"g": v["g"]}, lambda t, v: v["g"] + t),
+            "itemchild": ("lambda t: P[t].PC.pcref + t", lambda t, v: {"pcref": v["pcref"]}, lambda t, v: v["pcref"] + t),
+            "two": ("lambda t: P[t].pref + P[t + 1].t + A.g", lambda t, v: {"pref": v["pref"], "t": t + 1, "g": v.get("Ag", v["g"])},
+                    lambda t, v: v["pref"] + t + 1 + v.get("Ag", v["g"])),
+        }
+        for nm, (src, _, _) in readers.items():
+            R.new_cells(nm, formula=src)
+
+        def check(when):
+            for nm, (_, reads, plain) in readers.items():
+                c = R.cells[nm]
+                for t in (3, 4):
+                    stats["item_space_name_scenarios"] += 1
+                    try:
+                        got = c(t)
+                    except BaseException as e:      # noqa: BLE001
+                        out.fail("%s: R.%s(%d) raised %r" % (when, nm, t, e), hist)
+                        return False
+                    if got != plain(t, vals):
+                        out.fail("%s: R.%s(%d) returns %r, plain evaluation of its formula gives %r" % (
+                            when, nm, t, got, plain(t, vals)), hist)
+                        return False
+                    rep = set()
+                    for p in c.precedents(t):
+                        if type(p).__name__ == "ReferenceNode":
+                            rep.add((p._impl[0].name, p.value if isinstance(p.value, int) else None))
+                    want = set(reads(t, vals).items())
+                    if not want <= rep:
+                        out.fail("%s: the formula of R.%s(%d) read the references %s by attribute path; precedents() reports "
+                                 "only %s" % (when, nm, t, sorted(want), sorted(x for x in rep if x[1] is not None)), hist)
+                        return False
+            return True
+        steps = [
+            ("first evaluation", lambda: None),
+            ("cache hits", lambda: None),
+            ("after m.g = 6", lambda: (setattr(m, "g", 6), vals.update(g=6))),
+            ("after P.pref = 20", lambda: (setattr(P, "pref", 20), vals.update(pref=20))),
+            ("after P.clear_items()", lambda: P.clear_items()),
+            ("after A.g = 7 (shadows the model-level g in A)", lambda: (setattr(A, "g", 7), vals.update(Ag=7))),
+            ("after B.bref = 18", lambda: (setattr(B, "bref", 18), vals.update(bref=18))),
+            ("after del A.g", lambda: (delattr(A, "g"), vals.pop("Ag"))),
+            ("after P.PC.pcref = 24", lambda: (setattr(P.PC, "pcref", 24), vals.update(pcref=24))),
+        ]
+        for when, edit in steps:
+            try:
+                edit()
+            except BaseException as e:      # noqa: BLE001
+                out.fail("%s: the edit raised %r" % (when, e), hist)
+                break
+            if not check(when):
+                break
+    close_all()
+
+
+def dag_enumeration(ctx, out, stats):
+    """every dependency DAG on 4 cells x every order of requests x every value edit (dagenum.py), judged by the graph
+    clauses (element nodes = held elements, predecessors = the callees of the shape, successors the converse) after
+    every request and after the edit; quick: half of the orders (which half: by the seed)"""
+    import collections
+    from .. import core, dagenum
+
+    def on_failure(case, texts):
+        sub = core.Outcome()
+        oracle(case, [], sub, collections.Counter())
+        if sub.failures:
+            for f in sub.failures[:2]:
+                out.fail(f["what"], f["history"], key=f.get("key"))
+        else:
+            out.fail("%s: %s" % (case["label"], texts[0]), dict(X.case_json(case), scenario="dag-enum"))
+    dagenum.enumerate_all(ctx, on_failure, stats, n=4, slice_k=2, graph_checks=True,
+                          edits=("set", "clearat", "clearall", "set-recalc"))
+
+
 def replay(ctx, payload, out):
+    import collections
+    h = payload.get("history") or {}
+    if isinstance(h, dict) and h.get("scenario") == "item-space-names":
+        item_space_names(out, collections.Counter())
+        return
     X.replay_family(ctx, payload, out, CFG, oracle)
